@@ -164,3 +164,13 @@ def observe(call, sp=0):
 def last_on_cutoff(call):
     """a feature of the input (for matching findings): some contract's data ends exactly on the cutoff date"""
     return bool(call['cutoff']) and any(s['rows'] and s['rows'][-1] == call['cutoff'] for s in call['L'])
+
+
+def later_ends_earlier(call):
+    """a feature of the input (for matching findings): going down the chain, some contract with data is rolled off (roll
+    date or last row, whichever comes first) before a contract listed earlier"""
+    us = []
+    for s, r in zip(call['L'], call['rolls']):
+        if s['rows']:
+            us.append(min(r, s['rows'][-1]) if r else s['rows'][-1])
+    return any(a > b for a, b in zip(us, us[1:]))
